@@ -3,7 +3,7 @@
     rebench/model/run_id.py by the correspondence check harness/c03.py. *)
 From Coq Require Import List ZArith NArith Bool.
 Import ListNotations.
-From RV Require Import Lib.Str Model.Cmdline Proofs.CmdlineP.
+From RV Require Import Lib.Str Model.Cmdline Proofs.CmdlineP Gen.GenFactsBuild Gen.GenFactsLaunch.
 Local Open Scope N_scope.
 
 (** Python's `template % mapping`, as modelled, reads a rendered template back as the pieces it
@@ -46,6 +46,44 @@ Theorem C03_no_tilde_unchanged :
     Forall (fun w => expand_word home w = w) (split_ws s) -> expand_user home esc s = s.
 Proof. exact expand_user_no_tilde. Qed.
 Print Assumptions C03_no_tilde_unchanged.
+
+(** The plan (-p): Executor.execute_run, read off executor.py on every run as the list of its steps.  The plan branch comes
+    after the steps that only look up the adapter and assemble the command line, before the start of a run is reported,
+    before any build and before any process; it consists of print calls only - the directory when the run has one, then the
+    command line (the one C03_next_invocation describes) - and returns. *)
+Theorem C03_plan_before_any_effect :
+  plan_branch = [PCdLocationIfAny; PCmdline]
+  /\ exists pre post,
+       execute_run_steps = pre ++ XPlanOrGoOn :: post
+       /\ (forall s, In s pre -> s = XAdapter \/ s = XStopIfNoAdapter \/ s = XCmdline)
+       /\ In XReportStart post /\ (exists g, In (XBuildIf g) post) /\ (exists g, In (XProcessIf g) post)
+       /\ ~ In XPlanOrGoOn post.
+Proof.
+  split; [reflexivity|].
+  exists [XAdapter; XStopIfNoAdapter; XCmdline].
+  eexists. split; [reflexivity|]. split.
+  - intros s [<-|[<-|[<-|[]]]]; auto.
+  - split; [simpl; tauto|]. split; [eexists; simpl; eauto 12|]. split; [eexists; simpl; eauto 12|].
+    simpl. intros H. repeat (destruct H as [H|H]; [discriminate|]). exact H.
+Qed.
+Print Assumptions C03_plan_before_any_effect.
+
+(** Environment and working directory: read off the source on every run - the process is started with the command line, with
+    env = RunId.env and cwd = the run's location after expanduser (when there is one), shell=True; subprocess_with_timeout.run
+    hands exactly these to Popen (never os.environ, nothing merged); RunId.env is the configured map with expand_user applied to
+    the values.  Hence the child's variables are exactly the configured names (in order, none added, none dropped), and a
+    value without a leading ~ (and without ~ in a :-list) is passed as written. *)
+Theorem C03_env_and_cwd_reach_the_process :
+  launch_passes_cmdline_env_cwd = true /\ popen_gets_what_run_got = true /\ run_env_is_expanded_configured_env = true
+  /\ (forall home e, map fst (run_env home e) = map fst e)
+  /\ (forall home e k v, In (k, v) e -> Forall (fun w => expand_word home w = w) (split_ws v) -> In (k, v) (run_env home e)).
+Proof.
+  repeat split; try reflexivity.
+  - intros home e. unfold run_env. rewrite map_map. reflexivity.
+  - intros home e k v Hin Hw. unfold run_env. apply in_map_iff. exists (k, v). split; [|exact Hin].
+    simpl. rewrite (expand_user_no_tilde home false v Hw). reflexivity.
+Qed.
+Print Assumptions C03_env_and_cwd_reach_the_process.
 
 (** Non-vacuity: "exe 100%% %(variable)s %(invocation)s" with the value "50%". *)
 Example C03_example :
